@@ -269,4 +269,106 @@ theorem two_jobs_of_one_step (hl : stepLabel "X" "." = some "X") :
       (by rw [f6]; decide) rfl
     revert this; decide
 
+/-! ## The contrast: the same request with the same input list recycles, and `X` stays RUNNING -/
+
+/-- The definition of `X` in the first execution of `S`. -/
+def declX : StepDecl := { cmd := "X", inp := ["a"], resources := [("token", 1)] }
+
+/-- `S` (job 3) declares `X` again, unchanged. -/
+def e1same : Build.Ev := .rpc 3 (.define S declX)
+
+/-- The database after `define S X(inp a)` on `kr0`: `X` is attached again, still RUNNING. -/
+def kr1s : KState :=
+  { nodes := [
+      { key := rootKey, creator := some rootKey },
+      { key := S, creator := some rootKey, sstate := .running, need := .plan, safe := true, checkSafe := true,
+        safeNH := true, impliedNeed := .plan, ready := true, checkReady := false },
+      { key := fA, creator := some S, fstate := .confirmed, fhash := some 1 },
+      { key := fLate, creator := some S, fstate := .confirmed, fhash := some 2 },
+      { key := X, creator := some S, detached := false, sstate := .running, checkSafe := true, checkAfter := true,
+        ready := true, checkReady := true, resources := [("token", 1)] } ],
+    deps := [ { src := fA, snk := X } ] }
+
+def r1s : Sys := { r0 with k := kr1s, parked := false }
+
+def stateOfM : M KState → Option KState
+  | .ok k => some k
+  | .error _ => none
+
+theorem stateOfM_spec {r : M KState} {k : KState} (h : stateOfM r = some k) : r = .ok k := by
+  match r, h with
+  | .ok k', h => simp only [stateOfM, Option.some.injEq] at h; subst h; rfl
+
+theorem np_one (a : String) : normPaths [a] = [a] := by simp [normPaths, sortStrs, dedupSorted]
+
+theorem nd_same : normDecl declX = declX := by simp [normDecl, declX, np_one, np_nil]
+
+theorem guard_same (hl : stepLabel "X" "." = some "X") : kr0.defineGuard cfgT S declX = .ok X := by
+  have h1 : "a".endsWith "/" = false := by decide +kernel
+  unfold KState.defineGuard
+  simp [declX, hl, h1, S, X, rootKey, stepKey, fileKey, fA, fLate, KConfig.forbiddenTarget, KState.raiseIfGlobMatch,
+    KState.attachedGlobs, kr0, bind, Except.bind, pure, Except.pure]
+
+theorem can_recycle_same : kr0.canRecycle X declX = true := by
+  simp [KState.canRecycle, KState.initialPaths, kr0, KState.find?, KState.isDetached, sortStrs, X, S,
+    fA, fLate, declX, stepKey, fileKey, rootKey, FileState.role?]
+
+theorem recycle_same : kr0.recycleStep X S declX xRow = .ok kr1s := stateOfM_spec (by decide +kernel)
+
+theorem step_e1same (hl : stepLabel "X" "." = some "X") : step r0 e1same = r1s := by
+  have hg : kr0.defineGuard cfgT S (normDecl declX) = .ok X := by rw [nd_same]; exact guard_same hl
+  have hc : kr0.canRecycle X (normDecl declX) = true := by rw [nd_same]; exact can_recycle_same
+  have hf : kr0.find? X = some xRow := by decide +kernel
+  have ho : r0.k.exec r0.cfg (.define S declX) =
+      .ok (kr1s, StepupModel.Proto.hexList (kr1s.unconfirmedTreeInputs X)) := by
+    show kr0.exec cfgT (.define S declX) = _
+    simp only [KState.exec]
+    rw [defineStep_recycle hg hf rfl hc, nd_same, recycle_same]
+    rfl
+  have hr : r0.jl.running.contains (.step 3) = true := by decide
+  show unpark (applyEv r0 (.rpc 3 (.define S declX))) = r1s
+  simp only [applyEv, hr, ho, wakes, if_true]
+  rfl
+
+/-- A `define` request that creates anew (does not recycle) a step that has a job in flight. -/
+def RecreatesInFlight (s : Sys) (c : Key) (d : StepDecl) : Prop :=
+  ∃ sk, s.k.defineGuard s.cfg c (normDecl d) = .ok sk ∧ (∃ a ∈ s.jobs, a.2.1 = sk ∧ Job.step a.1 ∈ s.jl.running) ∧
+    ¬ ((s.k.find? sk).any (·.detached) = true ∧ s.k.canRecycle sk (normDecl d) = true)
+
+/-- **The discriminating condition in this scenario is `Step.can_recycle`.**  On the same state the request with
+the unchanged input list recycles the row (`try_recycle`): `X` is attached again and still RUNNING, and the link
+holds in both directions after it; the request of `two_jobs_of_one_step` is the one that re-creates a step in
+flight. -/
+theorem recycle_keeps_running (hl : stepLabel "X" "." = some "X") :
+    RecreatesInFlight r0 S declX' ∧ ¬ RecreatesInFlight r0 S declX ∧
+    (step r0 e1same).jobs = [(2, X, false), (3, S, false)] ∧ (step r0 e1same).jl.running = [.step 2, .step 3] ∧
+    ((step r0 e1same).k.find? X).map (·.sstate) = some .running ∧
+    InFlightLink (step r0 e1same) ∧ FlightRows (step r0 e1same) ∧ OneJobPerStep (step r0 e1same) := by
+  have hj : r1s.jobs = [(2, X, false), (3, S, false)] := by decide +kernel
+  have hg' : r0.k.defineGuard r0.cfg S (normDecl declX') = .ok X := by rw [nd]; exact guard hl
+  have hg : r0.k.defineGuard r0.cfg S (normDecl declX) = .ok X := by rw [nd_same]; exact guard_same hl
+  refine ⟨⟨X, hg', ⟨(2, X, false), by decide +kernel, rfl, by decide⟩, ?_⟩, ?_, ?_⟩
+  · rintro ⟨-, h⟩
+    rw [nd] at h
+    exact absurd (show kr0.canRecycle X declX' = true from h) (by rw [cannot_recycle]; decide)
+  · rintro ⟨sk, hsk, -, hn⟩
+    rw [hg] at hsk
+    cases hsk
+    refine hn ⟨by decide +kernel, ?_⟩
+    rw [nd_same]; exact can_recycle_same
+  · rw [step_e1same hl]
+    refine ⟨hj, rfl, by decide +kernel, ?_, ?_, ?_⟩
+    · have := step_inFlight r0 e1same trivial trivial r0_inFlightLink
+      rwa [step_e1same hl] at this
+    · intro a ha _ _
+      rw [hj] at ha
+      simp only [List.mem_cons, List.mem_nil_iff, or_false] at ha
+      rcases ha with rfl | rfl
+      · exact ⟨{ xRow with creator := some S, detached := false }, by decide +kernel, rfl, rfl⟩
+      · exact ⟨_, List.mem_cons_of_mem _ List.mem_cons_self, rfl, rfl⟩
+    · intro a ha b hb _ _ hk
+      rw [hj] at ha hb
+      simp only [List.mem_cons, List.mem_nil_iff, or_false] at ha hb
+      rcases ha with rfl | rfl <;> rcases hb with rfl | rfl <;> first | rfl | (revert hk; decide)
+
 end StepupModel.B.Build.Recreate
